@@ -42,7 +42,7 @@ impl ToTokens for FromVariantImpl<'_> {
         let passed_discriminant = self
             .discriminant
             .as_ref()
-            .map(|i| quote!(#i: #input.discriminant.as_ref().map(|(_, expr)| expr.clone()),));
+            .map(|i| quote!(#i: #input.discriminant.as_ref().map(|(_, __expr)| __expr.clone()),));
         let passed_attrs = self.forward_attrs.as_initializer();
         let passed_fields = self
             .fields
